@@ -58,3 +58,29 @@ impl NonFungibleEnumerable for EnumNft {}
 
 #[contractimpl(contracttrait)]
 impl NonFungibleBurnable for EnumNft {}
+
+/// Consecutive + Burnable wired through the traits' DEFAULT methods (`ContractType = Consecutive`
+/// and nothing else): every call goes through `impl ContractOverrides for Consecutive` /
+/// `impl BurnableOverrides for Consecutive`, the glue the explicitly wired example does not use.
+#[contract]
+pub struct ConsNft;
+
+#[contractimpl]
+impl ConsNft {
+    pub fn __constructor(e: &Env, uri: String, name: String, symbol: String, _owner: Address) {
+        Base::set_metadata(e, uri, name, symbol);
+    }
+    pub fn batch_mint(e: &Env, to: Address, amount: u32) -> u32 {
+        stellar_tokens::non_fungible::consecutive::Consecutive::batch_mint(e, &to, amount)
+    }
+}
+
+#[contractimpl(contracttrait)]
+impl NonFungibleToken for ConsNft {
+    type ContractType = stellar_tokens::non_fungible::consecutive::Consecutive;
+}
+
+impl stellar_tokens::non_fungible::consecutive::NonFungibleConsecutive for ConsNft {}
+
+#[contractimpl(contracttrait)]
+impl NonFungibleBurnable for ConsNft {}
